@@ -156,6 +156,7 @@ Fixpoint printable_fuel (fuel : nat) (h : heap) (v : value) : bool :=
           | _ => true
           end
       | VRet vs | VList vs => forallb (printable_fuel f h) vs
+      | VFn _ _ => false      (* printed through String(), which prints the syntax tree: outside the fragment *)
       | _ => true
       end
   end.
